@@ -43,6 +43,12 @@ CLAIMED = {
  "C04": dict(
    text="Lemma-level claim: _lamportTimestamp = 1 + max(known parents') for symbolic cached parent values in all presence cases (hence > each parent); the frame sort puts a lower Lamport timestamp first whatever the claimed wall-clock time (strict total order lemma shared with C01); _ancestor is exactly the coordinate comparison and seeing is transitive along ancestry under the coordinate-merge invariant (n = 2..3, symbolic coordinates); NewBlockFromFrame's payload is the concatenation in frame order of each event's transactions / internal transactions (0..3 events, symbolic bytes, empty and nil payloads).",
    note="The pairwise statement over whole histories is the composition of these lemmas with C01's round-received rule and is not checked; DecideRoundReceived's 'received at most once' is pending."+COMMON_NOTE, design="6/C04"),
+ "C05": dict(
+   text="Node-side hand-over step decided on a real ONE-validator core (the whole insertion + consensus + commit pipeline runs): 3 (thorough 4) consecutive addSelfEvent calls, 0..2 submissions of symbolic bytes before each (empty transactions included), the application's commit handler re-entering addTransactions 0..2 times, a stale head injected at any step: success => the event carries exactly the pending pool in order and the pool keeps exactly what was added during the call; failure => nothing lost, nothing duplicated; handed-over slices are never altered by later submissions (shared backing array modelled exactly); the in-process proxy hands over a copy (caller's buffer overwritten with symbolic bytes afterwards).",
+   note="Failure points other than the refused self-parent, sync truncation, more than one validator, and races between gossip goroutines and the submit channel (A4) are outside; exactly-once on the consensus side rests on C01/C04 lemmas."+COMMON_NOTE, design="6/C05"),
+ "C15": dict(
+   text="Partial claim (field-level conversions): wire round trip SetWireInfo -> ToWire -> ReadWireInfo on a node knowing the parents, Index/Timestamp symbolic over all of int/int64, symbolic payload bytes, nil / empty / 1..2 transactions, internal transactions and block signatures, all parent combinations: every body field equal INCLUDING nil-ness, same hash. Database form MarshalDB/UnmarshalDB: every private field the store relies on survives, same wire form after reload (json modelled as a faithful round trip of exported fields).",
+   note="NOT covered (stated): the JSON / ugorji encodings themselves (nil-vs-empty through the real codecs, canonical map order, frame hash independence): reflection-driven, not executable by the engine."+COMMON_NOTE, design="6/C15"),
 }
 for k in CLAIMED: CLAIMED[k]["technique"]=T
 NA = {
